@@ -57,7 +57,7 @@ class Shape:
 
 def shapes(tier):
     out = []
-    for k in (1, 2, 3):
+    for k in ((1, 2, 3, 4) if tier == "thorough" else (1, 2, 3)):
         for rest in itertools.product("FIW", repeat=k - 1):
             for binds in itertools.product((False, True), repeat=k):
                 out.append(Shape("M" + "".join(rest), binds))
